@@ -66,7 +66,8 @@ def cases(draw, tier="quick"):
     # so that the rarely visited states (FLUSHING, LONELY, ABANDONING, a candidate awaiting accept) are hit
     if draw(st.booleans()):
         P["close_in_state"] = [draw(st.integers(0, 1)), draw(st.sampled_from(
-            ["WANTING", "CONNECTING", "CONNECTED", "FLUSHING", "LONELY", "ABANDONING", "CANDIDATE", "CANDIDATE"]))]
+            ["WANTING", "CONNECTING", "CONNECTED", "CONNECTED", "CONNECTED", "FLUSHING", "LONELY", "ABANDONING", "CANDIDATE",
+             "CANDIDATE"]))]
         # the steered side closes only when the state is reached (or at the end); the other side stays up
         P["ops"] = [o for o in P["ops"] if o[0] != "wclose"]
         if P["close_in_state"][1] in ("FLUSHING", "LONELY", "ABANDONING"):
@@ -81,6 +82,20 @@ def cases(draw, tier="quick"):
                 P["peer"] = "dilating"
                 P["dilation"] = [True, True]
                 P["dilate_at"] = [P["dilate_at"][0], "start"]
+    if P.get("close_in_state") and P["close_in_state"][1] == "CONNECTED" and draw(st.integers(0, 2)) > 0:
+        # close() while CONNECTED in a later generation: the link is lost 1-2 times first (noticed by the Leader,
+        # the Follower, or both), and the steered close waits for those losses
+        P["close_after_kills"] = draw(st.integers(1, 2))
+        P["kills"] = P["close_after_kills"]
+        P["w_kill"] = 6
+        P["kill_notify"] = draw(st.sampled_from(["leader", "leader", "follower", "both", "tape"]))
+        P["close_in_state"][0] = draw(st.sampled_from(["L", "F", "F"]))      # by role, whichever side gets it
+        P["silent"] = None
+        if P["peer"] != "dilating":
+            P["peer"] = "dilating"
+            P["dilation"] = [True, True]
+            P["dilate_at"] = [P["dilate_at"][0], "start"]
+    P["reuse_endpoints"] = draw(st.booleans())
     P["w_app"] = draw(st.sampled_from([1, 2, 4]))
     n = draw(st.integers(10, 400))
     P["tape"] = draw(st.binary(min_size=n, max_size=n))
@@ -137,7 +152,7 @@ def run_case(P):
                     hit = cn is not None and bool(getattr(cn, "_contenders", None)) and \
                         getattr(cn, "_winning_connection", None) is None
                 else:
-                    hit = c.state_name(m) == tgt[1]
+                    hit = c.state_name(m) == tgt[1] and c.kills >= P.get("close_after_kills", 0)
             if hit:
                 steered[0] = tgt[1]
                 c.remaining_intents = [it for it in getattr(c, "remaining_intents", []) if it != ["wclose", tgt[0]]]
@@ -219,7 +234,8 @@ def run_case(P):
     res.nontrivial = interesting or P["peer"] != "dilating" or P["silent"] is not None
     res.features = dict(peer=P["peer"], silent=str(P["silent"]), s0=str((sts.get(0) or (None,))[0]),
                         s1=str((sts.get(1) or (None,))[0]), kills=min(case.kills, 2), relay=P["relay"],
-                        steered=str(steered[0]))
+                        steered=str(steered[0]) + ("+%dkills" % P["close_after_kills"] if P.get("close_after_kills") else ""),
+                        reuse_ep=P.get("reuse_endpoints"))
     for i, stt in sts.items():
         res.notes["close@Manager=%s,Connector=%s" % (stt[0], stt[1])] += 1
     for (exc, frame, msg) in case.errors:
